@@ -542,3 +542,34 @@ Lemma guard_nonvacuous_force :
   /\ (length (filter (sunder pR) (touched fs_ok (plan cfg_ok_force None fs_ok))) > 40)%nat
   /\ lookup (pR ++ [s_sentinel]) (fst (generate cfg_ok_force None fs_ok)) = Some (File 1).
 Proof. vm_compute. repeat split; auto; lia. Qed.
+
+(* ---------- a failure at ANY point: only a prefix of the planned operations is carried out ---------- *)
+Lemma Forall_firstn : forall {A} (P : A -> Prop) n l, Forall P l -> Forall P (firstn n l).
+Proof.
+  intros A P n. induction n as [|n IH]; intros l H; simpl; [constructor|].
+  destruct l as [|x l]; [constructor|]. inversion H; subst. constructor; auto.
+Qed.
+
+Lemma touched_firstn : forall pl n s p, In p (touched s (firstn n pl)) -> In p (touched s pl).
+Proof.
+  induction pl as [|[st op] pl IH]; intros n s p H; destruct n; simpl in *; try contradiction.
+  apply in_app_or in H. apply in_or_app. destruct H as [H|H]; [left; exact H | right; eapply IH; exact H].
+Qed.
+
+(* the diff path interrupted after n operations, then the TemporaryDirectory clean-up *)
+Theorem noforce_untouched_anywhere : forall c k s n,
+  wf_tmp c = true -> guard_F10b c = true ->
+  restrict_root c (exec (exec s (firstn n (plan_main c true k))) [(Final, Rmtree (tmp c))]) = restrict_root c s.
+Proof.
+  intros c k s n Hw Hg. unfold restrict_root.
+  change (fun kv : path * entry => under (root c) (fst kv)) with (inr (root c)).
+  pose proof (plan_diff_outside c k Hw Hg) as HF. apply Forall_app in HF. destruct HF as [HF1 _].
+  rewrite exec_outside.
+  - apply exec_outside. apply Forall_firstn. exact HF1.
+  - constructor; [|constructor]. simpl. destruct (wf_tmp_split c Hw) as [H1 H2]. split; assumption.
+Qed.
+
+Theorem contained_anywhere : forall c k s n p,
+  wf_pkg c = true -> wf_tmp c = true -> guard_F10b c = true ->
+  In p (touched s (firstn n (plan c k s))) -> sunder (root c) p = true -> allowed c p = true.
+Proof. intros c k s n p Hwf Hw Hg Hin. apply (contained c k s p Hwf Hw Hg). eapply touched_firstn. exact Hin. Qed.
